@@ -76,13 +76,13 @@ def load_storage_device(d, basis: int):
   }
   device_id = d['title'] if 'title' in d else d['type']
   bounds = run_to_array(d['bounds'])
-  params = { parameter_map[k]: v for k, v in d['parameters'].items() }
-  rate_clip = (None, None)
+  params = { parameter_map[k]: v for k, v in d['parameters'].items() if k in parameter_map }
+  rate_clip = [None, None]
   if 'disChargeRateClippingFactor' in d['parameters']:
     rate_clip[0] = d['parameters']['disChargeRateClippingFactor']
   if 'chargeRateClippingFactor' in d['parameters']:
     rate_clip[1] = d['parameters']['chargeRateClippingFactor']
-  params['rate_clip'] = rate_clip
+  params['rate_clip'] = tuple(rate_clip)
   return device_kit.SDevice(device_id, basis, bounds, **params)
 
 
